@@ -71,7 +71,12 @@ func migrateInvoiceTaxCombo(tc *tax.Combo) {
 		for _, m := range taxRateVATExemptMigrationMap {
 			if m.Key == tc.Rate {
 				tc.Rate = tax.RateExempt
-				tc.Ext = m.Ext
+				// a copy: the map is edited below and by the normalisers later
+				// on, and the table entry is shared by every document
+				tc.Ext = make(tax.Extensions, len(m.Ext))
+				for k, v := range m.Ext {
+					tc.Ext[k] = v
+				}
 				break
 			}
 		}
